@@ -557,7 +557,7 @@ def stream_dfxp_tree(ctx, acc, n):
 
 # ---- DFXP documents AS TEXT (wave 7, requests 120 / 121): the whole text is rendered by the Coq renderer ----------
 def stream_dfxp_text(ctx, acc, n):
-    """abstract documents of coq/spec/SpecXmlDoc.v (structure + every lexical choice); the extracted string-level reader
+    """abstract documents of coq/spec/SpecXmlDocT.v (structure + every lexical choice); the extracted string-level reader
     model (coq/model/XmlRead.v: text -> tree -> DFXPReader.read) and the real DFXPReader read the SAME text."""
     import xmldocgen as xg
     cases = [xg.gen(ctx.rng, n_top=(ctx.rng.choice([30, 80]) if ctx.rng.random() < 0.02 else None)) for _ in range(n)]
@@ -940,7 +940,7 @@ def run(ctx):
                    "text (in the domain for MicroDVD, counted out for SRT / WebVTT). DFXP documents: 1-4 divisions, "
                    "SAME-language and NESTED divisions, languages on tt / div / default, blank paragraphs; SAMI: 1-3 "
                    "interleaved languages with blank paragraphs. DFXP AS TEXT (stream dfxp-text, the whole text rendered by "
-                   "the Coq renderer of spec/SpecXmlDoc.v): optional XML declaration, tt / head / styling / layout / body, "
+                   "the Coq renderer of spec/SpecXmlDocT.v): optional XML declaration, tt / head / styling / layout / body, "
                    "1-4 divisions nested to depth 3, <metadata> / <set> children, paragraphs with text, <br/>, <span>; per "
                    "attribute 1+ white-space characters before the name, 0+ around '=', single or double quotes, values with "
                    "& < > and both quotes; begin / end / dur anywhere among up to 3 other attributes, close before begin in "
@@ -974,7 +974,7 @@ def run(ctx):
         "correspondence_only": ["SAMI text -> abstract tree (html.parser / BeautifulSoup-lxml); the SAMI documents are "
                                 "assembled by Python around Coq-rendered attribute strings",
                                 "DFXP text -> tree: since wave 7 INSIDE the model on the XML sublanguage of "
-                                "spec/SpecXmlDoc.v (theorem C01_dfxp_string_exact; the model parser stands for BeautifulSoup + "
+                                "spec/SpecXmlDocT.v (theorem C01_dfxp_string_exact; the model parser stands for BeautifulSoup + "
                                 "html.parser and is executed against the real reader on every generated text, on the "
                                 "fixtures of pycaption's test suite and on DFXPWriter output); outside that sublanguage "
                                 "(comments, CDATA, DOCTYPE, unquoted attributes, HTML void / raw-text element names, "
